@@ -1,5 +1,5 @@
 #!/bin/bash
-# usage: selftest/mut.sh <patch.diff|-e 'sed expr' file> <prop> [tier]
+# usage: selftest/mut.sh <patch.diff | -e 'sed expr' file | -f replacement.go dest/rel/path.go> <prop>...
 # Applies one change to a scratch copy of /repo (under $TMPDIR, removed afterwards), checks it still
 # builds, and runs ./check <prop> against it. Prints the check's VIOLATION lines. Development aid only.
 set -u
@@ -9,7 +9,7 @@ S=$(mktemp -d ${TMPDIR:-/tmp}/fermut.XXXXXX); trap 'rm -rf "$S"' EXIT
 mkdir -p "$S/repo" "$S/verif/evidence"
 rsync -a --exclude .git --exclude '/ferret' --exclude '/compiler' --exclude '/app*' --exclude '/Ferret' /repo/ "$S/repo/"
 cp "$HERE/known_findings.json" "$S/verif/"; [ -d "$HERE/fixtures" ] && cp -r "$HERE/fixtures" "$S/verif/"
-if [ "$1" = "-e" ]; then sed -i -E "$2" "$S/repo/$3" || exit 3; shift 3; else (cd "$S/repo" && patch -p1 -s < "$1") || { echo "patch failed"; exit 3; }; shift; fi
+if [ "$1" = "-f" ]; then cp "$2" "$S/repo/$3" || exit 3; shift 3; elif [ "$1" = "-e" ]; then sed -i -E "$2" "$S/repo/$3" || exit 3; shift 3; else (cd "$S/repo" && patch -p1 -s < "$1") || { echo "patch failed"; exit 3; }; shift; fi
 (cd "$S/repo" && go build ./... ) || { echo "MUTANT DOES NOT BUILD"; exit 4; }
 if [ "${MUT_TEST:-0}" = 1 ]; then (cd "$S/repo" && go test -vet=off -count=1 ./... 2>&1 | grep -v "^ok\|no test files" | head -20); fi
 for P in "$@"; do
